@@ -129,6 +129,13 @@ func c13Check(ctx *Ctx, idx int, cs c13Case) {
 		return
 	}
 	ctx.Rep.Traces++
+	if doc, aop, aerr := loadOp(cf.Merged.Schema, cs.Query, cs.OpName); aerr == nil && analyseOp(cf.Merged.Schema, doc, aop).NodeRoot {
+		// node(id:) roots: the model reproduces the open finding node-root-scrub-order (its outcome depends
+		// on the scrub-table order); whether the real runs happened to agree is chance, so neither the
+		// determinism flag nor the data are compared for these operations
+		ctx.Rep.Count("node(id:) root: model comparison skipped (open finding node-root-scrub-order)")
+		return
+	}
 	if mres["deterministic"] != true {
 		ctx.Rep.Fail(hx.Failure{Kind: "model-mismatch", Detail: "the model's outcome depends on the order of a Go map (urls / scrub paths / scrub types) although the real gateway was deterministic", Case: full, Impl: first, Model: mres, Index: idx})
 		return
